@@ -226,12 +226,15 @@ Definition never_shed (l : list (op * oobs)) : bool :=
   forallb (fun x => match snd x with OA shed _ _ _ _ _ _ _ => negb shed | _ => true end) l.
 
 Definition prop_gen (excl : bool) (c : scase) : bool :=
-  if cnop c then never_shed (cops c)
-  else if cenabled (ccfg c) then
-    csame c
-    && prop_loop excl (cwb c) (ccfg c) (ct0 c) (monotone (ct0 c) (cops c))
-                 (mkAcc 0 [] [] 0 [] false 0%Q (ct0 c)) (cops c)
-  else false.   (* disabled, yet an adaptive shedder was built *)
+  if cenabled (ccfg c) then
+    if cnop c then never_shed (cops c)
+    else csame c
+         && prop_loop excl (cwb c) (ccfg c) (ct0 c) (monotone (ct0 c) (cops c))
+                      (mkAcc 0 [] [] 0 [] false 0%Q (ct0 c)) (cops c)
+  else
+    (* built after load.Disable(): whatever was built, it never sheds (that a nopShedder was built is
+       compared by [s_agrees]) *)
+    never_shed (cops c).
 
 (* ------------------------------------------------------------------ *)
 (* wrappers (rest SheddingHandler, zrpc UnarySheddingInterceptor) and ShedderGroup *)
@@ -248,7 +251,9 @@ Inductive wobs := WO (runs allows passes fails : Z) (vis : visible) (panics : bo
 Definition rpc_eqb (a b : rpc_outcome) : bool :=
   match a, b with
   | GOk, GOk | GErr, GErr | GDeadline, GDeadline | GWrappedDeadline, GWrappedDeadline
-  | GStatusDeadline, GStatusDeadline | GPanic, GPanic => true
+  | GStatusDeadline, GStatusDeadline | GPanic, GPanic
+  | GOverloaded, GOverloaded | GExhausted, GExhausted | GCanceled, GCanceled
+  | GPanicOverloaded, GPanicOverloaded => true
   | _, _ => false
   end.
 
@@ -301,7 +306,7 @@ Definition w_prop_one (q : wreq) (ob : wobs) : bool :=
     | WRpc VGrant o =>
       let over := match o with GDeadline | GWrappedDeadline => true | _ => false end in
       (runs =? 1) && (passes + fails =? 1) && (0 <=? passes) && (0 <=? fails)
-      && eqb (fails =? 1) over && eqb pn (rpc_eqb o GPanic)
+      && eqb (fails =? 1) over && eqb pn (rpc_eqb o GPanic || rpc_eqb o GPanicOverloaded)
       && vis_eqb vis (VisRpc o)
     end
   end.
@@ -353,7 +358,7 @@ Definition wout_overload_class (o : wout) : bool :=
   | WoRpc o => match o with GDeadline | GWrappedDeadline => true | _ => false end
   end.
 Definition wout_panics (o : wout) : bool :=
-  match o with WoRest o => ro_panics o | WoRpc o => rpc_eqb o GPanic end.
+  match o with WoRest o => ro_panics o | WoRpc o => rpc_eqb o GPanic || rpc_eqb o GPanicOverloaded end.
 Definition wout_visible (o : wout) : visible :=
   match o with WoRest o => VisStatus (hd 200 (ro_codes o)) | WoRpc o => VisRpc o end.
 Definition wout_overload_answer (o : wout) : visible :=
